@@ -250,7 +250,7 @@ class ExcelCompiler:
         return True
 
     @classmethod
-    def _from_text(cls, filename, is_json=False):
+    def _from_text(cls, filename, is_json=False, plugins=None):
         """deserialize from a json/yaml file"""
 
         if not is_json:
@@ -264,7 +264,9 @@ class ExcelCompiler:
             data = YAML().load(f)
 
         excel = _CompiledImporter(filename, data)
-        excel_compiler = cls(excel=excel, cycles=data.pop('cycles', False))
+        # (ranges are calculated while loading, which needs the plugins)
+        excel_compiler = cls(excel=excel, cycles=data.pop('cycles', False),
+                             plugins=plugins)
         excel.compiler = excel_compiler
 
         def add_line_numbers(cell_addr, line_number):
@@ -369,7 +371,8 @@ class ExcelCompiler:
             if (text_changed or not os.path.exists(filename) or
                     # the text file was saved on its own since the last pickle
                     os.path.getmtime(filename) < os.path.getmtime(text_name)):
-                excel_compiler = self._from_text(text_name, is_json=is_json)
+                excel_compiler = self._from_text(
+                    text_name, is_json=is_json, plugins=self._plugin_modules)
                 if non_pickle_extension not in file_types:
                     os.unlink(text_name)
 
@@ -399,7 +402,7 @@ class ExcelCompiler:
                 excel_compiler = pickle.load(f)
         else:
             excel_compiler = cls._from_text(
-                filename, is_json=extension == 'json')
+                filename, is_json=extension == 'json', plugins=plugins)
 
         excel_compiler.excel = _CompiledImporter('', {
             'filename': excel_compiler.filename,
